@@ -74,6 +74,32 @@ var sweeps = []sweep{
 	},
 }
 
+func innerCall(id string, sub Call) Call { return Call{Op: "inner", ID: id, Sub: &sub} }
+
+func init() {
+	// builders compiled as nodes of another builder: an outer Graph over a valid (s1) and an invalid (s2)
+	// inner Graph; the sequences repair / break / extend the inner graphs around the Compiles of the outer one
+	sweeps = append(sweeps, sweep{
+		fe: "nested",
+		base: []Call{
+			{Op: "sub", Key: "x", ID: "s1", Kind: "subok"},
+			{Op: "sub", Key: "y", ID: "s2", Kind: "subbad"},
+			{Op: "addedge", From: "start", To: "x"},
+			{Op: "addedge", From: "x", To: "y"},
+			{Op: "addedge", From: "y", To: "end"},
+		},
+		alphabet: []Call{
+			{Op: "compile"},
+			innerCall("s1", Call{Op: "addnode", Key: "t", Kind: "lambda"}),
+			innerCall("s2", Call{Op: "addedge", From: "start", To: "s"}),
+			innerCall("s2", Call{Op: "addedge", From: "s", To: "end"}),
+			innerCall("s2", Call{Op: "addnode", Key: "s", Kind: "lambda"}),
+		},
+		tail: []Call{{Op: "compile"}, innerCall("s1", Call{Op: "addnode", Key: "u", Kind: "lambda"}),
+			innerCall("s2", Call{Op: "addnode", Key: "u", Kind: "lambda"}), innerCall("s1", Call{Op: "compile"}), {Op: "compile"}},
+	})
+}
+
 func sweepLen(tier string) int {
 	if tier == "thorough" {
 		return 4
@@ -90,6 +116,10 @@ func pow(a, l int) int {
 }
 
 func cloneCall(c Call) Call {
+	if c.Sub != nil {
+		sub := cloneCall(*c.Sub)
+		c.Sub = &sub
+	}
 	c.Ends = append([]string(nil), c.Ends...)
 	c.Fields = append([]string(nil), c.Fields...)
 	c.Items = append([]Item(nil), c.Items...)
@@ -565,7 +595,7 @@ func randChain(r *lib.Rng, tier string) *Case {
 			c.Calls = append(c.Calls, Call{Op: "append", Kind: "pass"})
 			multi = false
 		case x < 65:
-			c.Calls = append(c.Calls, Call{Op: "append", Kind: []string{"subok", "subok", "subbad"}[r.Intn(3)]})
+			c.Calls = append(c.Calls, Call{Op: "append", Kind: []string{"subok", "subok", "subok", "subok", "subbad"}[r.Intn(5)]})
 			multi = false
 		case x < 85:
 			c.Calls = append(c.Calls, Call{Op: "parallel", Items: randItems(r, "o", r.Range(2, 3))})
@@ -882,20 +912,26 @@ func injectWorkflow(r *lib.Rng, c *Case, keys []string) {
 	case "dup-data-edge", "dup-ctrl-edge":
 		// a fresh node that declares the same predecessor twice, with mapping targets that do not overlap
 		from := []string{"start", any()}[r.Intn(2)]
-		k1, k2 := "nodirect", []string{"nodirect", "normal"}[r.Intn(2)]
-		f2 := []string{"B"}
+		// every ordered pair of declaration kinds: the duplicate has to be found whichever of the two
+		// edge lists the first declaration went into (now and then the well-formed pair data-only + control-only)
+		pairs := [][2]string{{"nodirect", "nodirect"}, {"nodirect", "normal"}, {"normal", "nodirect"}}
 		if kind == "dup-ctrl-edge" {
-			k1, k2, f2 = "normal", "dep", nil
-			if r.Chance(1, 2) {
-				k1 = "dep"
+			pairs = [][2]string{{"normal", "dep"}, {"dep", "normal"}, {"dep", "dep"}, {"normal", "normal"}}
+		}
+		if r.Chance(1, 8) {
+			pairs = [][2]string{{"nodirect", "dep"}, {"dep", "nodirect"}}
+		}
+		pr := pairs[r.Intn(len(pairs))]
+		k1, k2 := pr[0], pr[1]
+		fld := func(k, f string) []string {
+			if k == "dep" {
+				return nil
 			}
+			return []string{f}
 		}
 		calls := []Call{{Op: "addnode", Key: "dd", Kind: "lambda"},
-			{Op: "addinput", To: "dd", From: from, In: k1, Fields: []string{"A"}},
-			{Op: "addinput", To: "dd", From: from, In: k2, Fields: f2}}
-		if r.Chance(1, 2) {
-			calls[1], calls[2] = calls[2], calls[1]
-		}
+			{Op: "addinput", To: "dd", From: from, In: k1, Fields: fld(k1, "A")},
+			{Op: "addinput", To: "dd", From: from, In: k2, Fields: fld(k2, "B")}}
 		if k1 == "nodirect" && k2 == "nodirect" {
 			calls = append(calls, Call{Op: "addinput", To: "dd", From: any(), In: "dep"})
 		}
@@ -1025,6 +1061,95 @@ func injectWorkflow(r *lib.Rng, c *Case, keys []string) {
 	}
 }
 
+// ---- nested: an outer Graph whose sub-graph nodes are Graph values the case goes on calling
+
+func randInnerCall(r *lib.Rng, id string) Call {
+	// mostly calls that make sense on a graph that has the node "s" (and perhaps "t"): the repairs of an
+	// invalid sub graph, extensions, duplicates; now and then an unknown node
+	nodes := []string{"s", "s", "t", "u"}
+	switch x := r.Intn(100); {
+	case x < 25:
+		return innerCall(id, Call{Op: "addnode", Key: []string{"t", "t", "u", "s"}[r.Intn(4)], Kind: []string{"lambda", "lambda", "pass"}[r.Intn(3)]})
+	case x < 45:
+		return innerCall(id, Call{Op: "addedge", From: "start", To: nodes[r.Intn(len(nodes))]})
+	case x < 65:
+		return innerCall(id, Call{Op: "addedge", From: nodes[r.Intn(len(nodes))], To: "end"})
+	case x < 75:
+		return innerCall(id, Call{Op: "addedge", From: nodes[r.Intn(len(nodes))], To: nodes[r.Intn(len(nodes))]})
+	case x < 85:
+		return innerCall(id, Call{Op: "addbranch", From: []string{"start", "s", "t"}[r.Intn(3)], Ends: []string{nodes[r.Intn(len(nodes))], "end"}})
+	}
+	k := Call{Op: "compile"}
+	randOpts(r, &k, "graph")
+	return innerCall(id, k)
+}
+
+func randNested(r *lib.Rng, tier string) *Case {
+	c := &Case{FE: "nested", Src: "rand", State: r.Chance(1, 5)}
+	n := r.Range(2, 4)
+	keys := append([]string(nil), nodePool[:n]...)
+	ids := []string{"s1", "s2", "s3"}
+	var used []string
+	nSub := 0
+	for i, k := range keys {
+		if (r.Chance(1, 2) && nSub < 3) || (i == n-1 && nSub == 0) {
+			id := ids[nSub]
+			if nSub > 0 && r.Chance(1, 6) {
+				id = used[r.Intn(len(used))] // the same inner graph under two keys
+			} else {
+				nSub++
+				used = append(used, id)
+			}
+			c.Calls = append(c.Calls, Call{Op: "sub", Key: k, ID: id, Kind: []string{"subok", "subok", "subok", "subok", "subbad"}[r.Intn(5)]})
+		} else {
+			c.Calls = append(c.Calls, Call{Op: "addnode", Key: k, Kind: []string{"lambda", "lambda", "pass"}[r.Intn(3)]})
+		}
+	}
+	c.Calls = shuffle(r, c.Calls)
+	var links []Call
+	links = append(links, Call{Op: "addedge", From: "start", To: keys[0]})
+	for i := 1; i < n; i++ {
+		links = append(links, Call{Op: "addedge", From: keys[r.Intn(i)], To: keys[i]})
+	}
+	links = append(links, Call{Op: "addedge", From: keys[n-1], To: "end"})
+	if r.Chance(1, 4) {
+		links = append(links, Call{Op: "addbranch", From: keys[0], Ends: []string{keys[n-1], "end"}})
+	}
+	if r.Chance(1, 8) {
+		links = append(links, Call{Op: "addedge", From: keys[n-1], To: keys[0]}) // a cycle: only an all-predecessor Compile minds
+	}
+	c.Calls = append(c.Calls, shuffle(r, links)...)
+	// calls on the inner graphs before the Compile (repairs of an invalid one, duplicates, extensions)
+	for k := r.Intn(4); k > 0; k-- {
+		c.Calls = insertAt(c.Calls, r.Range(0, len(c.Calls)), randInnerCall(r, used[r.Intn(len(used))]))
+	}
+	comp := Call{Op: "compile"}
+	randOpts(r, &comp, "graph")
+	c.Calls = append(c.Calls, comp)
+	// after the Compile: the inner graphs again, the outer graph, further Compiles
+	for k := r.Range(1, 5); k > 0; k-- {
+		switch x := r.Intn(10); {
+		case x < 5:
+			c.Calls = append(c.Calls, randInnerCall(r, used[r.Intn(len(used))]))
+		case x < 7:
+			c.Calls = append(c.Calls, comp)
+		case x < 8:
+			c2 := Call{Op: "compile"}
+			randOpts(r, &c2, "graph")
+			c.Calls = append(c.Calls, c2)
+		case x < 9:
+			c.Calls = append(c.Calls, Call{Op: "addedge", From: keys[r.Intn(n)], To: withEnd(keys)[r.Intn(n+1)]})
+		default:
+			c.Calls = append(c.Calls, Call{Op: "sub", Key: "z" + nodePool[r.Intn(2)], ID: used[r.Intn(len(used))], Kind: "subok"})
+		}
+	}
+	if r.Chance(1, 3) {
+		injectGraph(r, c, keys)
+	}
+	normalize(c)
+	return c
+}
+
 func (engine) Generate(r *lib.Rng, tier string, i int) any {
 	// two slots out of three go to the exhaustive sweep while it lasts
 	if i%3 != 2 {
@@ -1032,11 +1157,13 @@ func (engine) Generate(r *lib.Rng, tier string, i int) any {
 			return c
 		}
 	}
-	switch r.Intn(10) {
+	switch r.Intn(12) {
 	case 0, 1, 2, 3:
 		return randGraph(r, tier)
 	case 4, 5, 6:
 		return randChain(r, tier)
+	case 10, 11:
+		return randNested(r, tier)
 	}
 	return randWorkflow(r, tier)
 }
